@@ -114,6 +114,9 @@ def run(ctx):
                               "oracle": {"name": "c16Holds", "result": False,
                                          "witness": {"why": "published parameter set does not reproduce the reference R algorithm"}}})
     tsets = [{"Ksmacz0": 7.3, "alpha": 3.0, "zeta_max_cm": 1.0}] + [
+        # alpha close to its lower bound 1 (where a calibration run drives it): still "alpha > 1"
+        {"Ksmacz0": 10 ** rng.uniform(-2, 2), "alpha": 1.0 + 10 ** rng.uniform(-12, -3), "zeta_max_cm": rng.choice([1.0, 5.0])}
+        for _ in range(4)] + [
         {"Ksmacz0": 10 ** rng.uniform(-4, 5), "alpha": rng.uniform(1.05, 20.0), "zeta_max_cm": rng.choice([1.0, 0.0, 5.0, rng.uniform(-5, 20)])}
         for _ in range(n * 3)]
     live = None
